@@ -79,6 +79,16 @@ func (self *printer) printComments(node *AstNode, prefix string) {
 	self.lastComment = node.Loc
 }
 
+// spacer writes the empty line between two sections of a file.
+//
+// printComments adds an empty line before a comment which followed one in the
+// source.  After a one-line declaration (an include or a file type) that
+// would be this very line, so forget where the last node was.
+func (self *printer) spacer() {
+	self.mustWriteString(NEWLINE)
+	self.lastComment.Line = 0
+}
+
 func (self *printer) WriteString(s string) (int, error) {
 	return self.buf.WriteString(s)
 }
@@ -172,14 +182,14 @@ func (self *Ast) format(writeIncludes bool) string {
 
 	// filetype declarations.
 	if needSpacer && len(self.UserTypes) > 0 {
-		printer.mustWriteString(NEWLINE)
+		printer.spacer()
 	}
 	for _, filetype := range self.UserTypes {
 		filetype.format(&printer)
 		needSpacer = true
 	}
 	if needSpacer && len(self.StructTypes) > 0 {
-		printer.mustWriteString(NEWLINE)
+		printer.spacer()
 	}
 	for i, structType := range self.StructTypes {
 		if i != 0 {
@@ -191,14 +201,14 @@ func (self *Ast) format(writeIncludes bool) string {
 
 	// callables.
 	if needSpacer && self.Callables != nil && len(self.Callables.List) > 0 {
-		printer.mustWriteString(NEWLINE)
+		printer.spacer()
 	}
 	self.Callables.format(&printer)
 
 	// call.
 	if self.Call != nil {
 		if self.Callables != nil && len(self.Callables.List) > 0 || needSpacer {
-			printer.mustWriteString(NEWLINE)
+			printer.spacer()
 		}
 		self.Call.format(&printer, "")
 	}
